@@ -137,6 +137,18 @@ pub fn boundary(n: usize) -> Vec<B> {
             k += g;
         }
     }
+    // the bounds of the primitive integers embedded in a wider type (boundaries of fast paths through primitives)
+    for k in [7usize, 15, 31, 63, 127] {
+        if k + 1 < 8 * n {
+            let p = pow2(n, k);
+            v.push(p.clone());
+            v.push(sub1(&p));
+            v.push(add1(&p));
+            v.push(negate(&p));
+            v.push(sub1(&negate(&p)));
+            v.push(add1(&negate(&p)));
+        }
+    }
     // half-width values
     let h = 4 * n;
     v.push(pow2(n, h));
@@ -274,6 +286,20 @@ pub fn pairs(r: &mut Rng, n: usize, count: usize) -> Vec<(B, B)> {
             k += g;
         }
     }
+    // primitive bounds embedded in a wider type, paired with themselves and with 0, 1, -1
+    for k in [7usize, 15, 31, 63, 127] {
+        if k + 1 < 8 * n && (count >= 200 || r.below(2) == 0) {
+            let p = pow2(n, k);
+            for sp in [negate(&p), p.clone(), sub1(&p)] {
+                v.push((sp.clone(), sp.clone()));
+                v.push((sp.clone(), zero(n)));
+                v.push((zero(n), sp.clone()));
+                v.push((sp.clone(), ones(n)));
+                v.push((sp.clone(), small(n, 1)));
+            }
+        }
+    }
+    let count = count.max(v.len() + 20);
     while v.len() < count {
         let a = any(r, n, &bnd);
         let b = match r.below(8) {
